@@ -58,6 +58,9 @@ let s_ops = { show = show_s; eu = f_s_eval_univariate; em = f_s_eval_multivariat
               du = f_s_derivate_univariate; dm = f_s_derivate_multivariate;
               iu = f_s_integral_univariate; im = f_s_integral_multivariate;
               ai = f_s_analytical_integral }
+(* proved equal to s_ops (fast_model_eq); linear instead of quadratic in the number of coefficients *)
+let s_ops_fast = { s_ops with du = f_s_derivate_univariate_fast; dm = f_s_derivate_multivariate_fast;
+                   iu = f_s_integral_univariate_fast; im = f_s_integral_multivariate_fast }
 let i_ops = { show = show_i; eu = f_i_eval_univariate; em = f_i_eval_multivariate;
               du = f_i_derivate_univariate; dm = f_i_derivate_multivariate;
               iu = f_i_integral_univariate; im = f_i_integral_multivariate;
@@ -80,9 +83,12 @@ let rest (o : 'p ops) (p0 : 'p) (t : toks) : string =
   done;
   let p = !p in
   let half = float_of_hex "3fe0000000000000" in
-  let u = [okerr (o.eu p half); okerr (o.du p); okerr (o.iu p)] in
-  let vals = match word t with
-    | "none" -> []
+  let fin = word t in
+  (* "np": structure only (the degree-65535 cases: each pass over the coefficients is quadratic in the
+     extracted model because the power index is a unary nat converted by Z.of_nat) *)
+  let u = if fin = "np" then ["-"; "-"; "-"] else [okerr (o.eu p half); okerr (o.du p); okerr (o.iu p)] in
+  let vals = match fin with
+    | "none" | "np" -> []
     | "eu" -> List.map (fun x -> value (o.eu p x)) (fvec t)
     | "em" ->
       let k = int t in
@@ -105,7 +111,7 @@ let run (line : string) : string =
       let s_var = if v = "-" then None else Some (n_of_int (int_of_string v)) in
       let s_coefs = fvec t in
       let _src = cpstr t in
-      rest s_ops { s_coefs; s_var } t
+      rest (if List.length s_coefs > 2000 then s_ops_fast else s_ops) { s_coefs; s_var } t
     | "i" ->
       let nt = int t in
       let i_terms = times nt (fun () ->
